@@ -4,4 +4,18 @@ go 1.21
 
 require github.com/linuxboot/fiano v0.0.0
 
+require (
+	github.com/dustin/go-humanize v1.0.0 // indirect
+	github.com/hashicorp/errwrap v1.0.0 // indirect
+	github.com/hashicorp/go-multierror v1.1.1 // indirect
+	github.com/jedib0t/go-pretty/v6 v6.4.6 // indirect
+	github.com/mattn/go-runewidth v0.0.13 // indirect
+	github.com/pierrec/lz4 v2.6.1+incompatible // indirect
+	github.com/rivo/uniseg v0.2.0 // indirect
+	github.com/tjfoc/gmsm v1.4.1 // indirect
+	github.com/ulikunitz/xz v0.5.11 // indirect
+	github.com/xaionaro-go/bytesextra v0.0.0-20220103144954-846e454ddea9 // indirect
+	golang.org/x/text v0.6.0 // indirect
+)
+
 replace github.com/linuxboot/fiano => /repo
